@@ -56,6 +56,9 @@ type caseSpec struct {
 	Parts    []partSpec
 	Scenario string // plain | stalled | dead | sector | storeLock ; in stalled/dead/sector participant 0 is the lock holder
 	Site     int    // stalled/dead: where inside phase 1 the holder stops (1..4)
+	// Poll (dead holder): while the holder's lock TTL runs, other writers keep retrying the same keys every ~150 ms
+	// (each attempt inspects the dead holder's item locks); the TTL must still end.
+	Poll bool
 	Stall    time.Duration
 	UUIDSeed uint64
 	Barrier  bool
@@ -73,6 +76,9 @@ func (c caseSpec) render() string {
 	fmt.Fprintf(&sb, "mod=%d uuid=%x %s", c.HashMod, c.UUIDSeed, c.Scenario)
 	if c.Scenario == "stalled" || c.Scenario == "dead" {
 		fmt.Fprintf(&sb, "@%s", siteNames[c.Site])
+	}
+	if c.Poll {
+		sb.WriteString(" polled")
 	}
 	if c.Scenario != "plain" {
 		fmt.Fprintf(&sb, " stall=%v", c.Stall)
@@ -123,6 +129,9 @@ func genCase(t *rapid.T) caseSpec {
 	}
 	if c.Scenario == "stalled" || c.Scenario == "dead" {
 		c.Site = rapid.SampledFrom([]int{1, 2, 3, 4, 1, 2}).Draw(t, "site")
+	}
+	if c.Scenario == "dead" {
+		c.Poll = rapid.Bool().Draw(t, "poll")
 	}
 	n := rapid.IntRange(2, 4).Draw(t, "writers")
 	nHot := rapid.IntRange(1, 3).Draw(t, "nHot")
@@ -279,6 +288,7 @@ type caseResult struct {
 	HolderStalled bool
 	Follow        partResult
 	FollowRan     bool
+	Polls         int
 	MaxLag        time.Duration // worst oversleep of a 5 ms heartbeat: how starved the process was
 	HarnessErr    error
 }
@@ -570,7 +580,13 @@ func runCase(c caseSpec) (cr caseResult) {
 	// (a stalled holder has returned by now and has to have released its locks itself)
 	if c.Scenario == "dead" && cr.HolderStalled {
 		stallAt := hh.at.Load()
-		if wait := time.Until(time.Unix(0, stallAt).Add(c.Parts[0].MaxTime + 150*time.Millisecond)); wait > 0 {
+		end := time.Unix(0, stallAt).Add(c.Parts[0].MaxTime + 150*time.Millisecond)
+		for c.Poll && time.Until(end) > 200*time.Millisecond {
+			runFollowUp(e, c) // a retrying writer: refused (or timed out) while the dead holder's locks live
+			cr.Polls++
+			time.Sleep(150 * time.Millisecond)
+		}
+		if wait := time.Until(end); wait > 0 {
 			time.Sleep(wait)
 		}
 	}
@@ -725,6 +741,9 @@ func judge(c caseSpec, cr caseResult) verdict {
 				}
 			} else {
 				v.class = append(v.class, "followUpCommitted")
+				if cr.Polls > 0 {
+					v.class = append(v.class, "deadHolderPolledWhileItsLocksRanOut")
+				}
 			}
 		}
 	}
